@@ -536,7 +536,7 @@ Proof.
       now rewrite <- app_assoc in HEok.
     + rewrite Havs.
       destruct (IH (acc ++ [1]) (env ++ [[Some (mlin (vals (map (env_val args env) (s_args st))))]]) Hden' Hwf HL Had
-                   (env_ok_snoc _ _ 1 _ He eq_refl eq_refl)) as (E & HE & HEok).
+                   (env_ok_snoc _ _ 1 [Some (mlin (vals (map (env_val args env) (s_args st))))] He eq_refl eq_refl)) as (E & HE & HEok).
       exists E. split; auto. unfold body_nouts; simpl. unfold stmt_nouts at 1. rewrite Em.
       now rewrite <- app_assoc in HEok.
 Qed.
@@ -553,5 +553,5 @@ Proof.
   unfold all_data. rewrite forallb_forall. intros x Hx. apply in_map_iff in Hx as ([lab a] & <- & Ha).
   rewrite forallb_forall in Hr. specialize (Hr _ Ha). simpl in *.
   pose proof (env_val_data _ _ args E false a HL Had HEok Hr (or_intror I)) as H.
-  destruct a; auto. discriminate.
+  destruct a; auto.
 Qed.
